@@ -246,6 +246,10 @@ func (s ExtendedSpatialID) Higher(hDiff, vDiff int64) *ExtendedSpatialID {
 	var x = s.x / hDiv
 	var y = s.y / hDiv
 	var z = s.z / vDiv
+	if s.z%vDiv < 0 {
+		// 地下(負のインデックス)でも親ボクセルは床関数で求める
+		z--
+	}
 
 	return &ExtendedSpatialID{
 		hZoom: hZoom,
